@@ -256,6 +256,23 @@ def r162(ctx, ut):
                 problems.append((n, f'`{short(n)}`: operands swapped in a non-commutative operation'))
         if n_ar < 2:
             problems.append((fn, f'{meth}: expected the scalar and the quantity branch to compute float(self) {binop.__name__} ..., found {n_ar}'))
+        # the scalar branch by cases: for a plain number the result is self._val(float(self) <op> number) -- scaling acts on the SI value and
+        # keeps the unit (a result built from the displayed value goes through the unit factor twice: not bit-exact, inf / 0 at the limits)
+        for num_t in ('float', 'int'):
+            env_ = {('ord', f'type({other})', num_t): 'eq', ('ord', f'type({other})', 'int' if num_t == 'float' else 'float'): 'lt',
+                    ('bool', f'isinstance({other}, (float, int))'): True, ('bool', f'isinstance({other}, (int, float))'): True,
+                    ('bool', f'isinstance({other}, float)'): num_t == 'float', ('bool', f'isinstance({other}, int)'): num_t == 'int',
+                    ('bool', f'type({other}) in (float, int)'): True, ('bool', f'type({other}) in (int, float)'): True}
+            r_ = eval_decision_list(body_of(fn), GuardEval(prog, cname, env_))
+            ctx.examined()
+            okc = isinstance(r_, tuple) and isinstance(r_[1], ast.Call) and unparse(r_[1].func) == 'self._val' and len(r_[1].args) == 1 \
+                and isinstance(r_[1].args[0], ast.BinOp) and isinstance(r_[1].args[0].op, binop) and _is_float_of(r_[1].args[0].left, 'self') \
+                and unparse(r_[1].args[0].right) in (other, f'float({other})')
+            if not okc and r_ != AMBIG:
+                problems.append((r_[1] if isinstance(r_, tuple) and r_[1] is not None else fn,
+                                 f'{meth} with a plain {num_t}: the result is `{short(r_[1]) if isinstance(r_, tuple) and r_[1] is not None else r_}`, not '
+                                 f'self._val(float(self) {binop.__name__} {other}): scaling must act on the SI value'))
+                break
         if table is not None:
             used = {n.attr for n in walk_shallow(fn) if isinstance(n, ast.Attribute) and n.attr in ('_mul', '_div')}
             if used != {table}:
